@@ -15,6 +15,8 @@ G_UNITS = {
 }
 
 
+G_UNITS["implitem"] = ["is_root_derive_ex_attr"]      # which sibling attributes belong to the request (split lists)
+
 def matrix(ctx, ex, placements, entries, combos, traits=R.CMP_TRAITS):
     n = nontriv = 0
     samples = []
